@@ -105,10 +105,10 @@ func (h HashID) String() string {
 // For TLS 1.3 suites KeyLen is the traffic key / sn key length, the IV is always 12 bytes and Hash is
 // the HKDF / transcript hash.
 type Suite struct {
-	ID   uint16
-	Name string
+	ID    uint16
+	Name  string
 	TLS13 bool
-	Kind Kind
+	Kind  Kind
 	// Hash is the PRF hash (TLS 1.2: P_hash, verify_data, exporter) or the HKDF hash (TLS 1.3).
 	Hash HashID
 	// MAC is the HMAC hash of a CBC suite (0 for AEAD suites).
